@@ -284,6 +284,24 @@ Section WithDigest.
     let fs' := set wp fnew fs in
     (inr (map (answer_of fs alg) looked), fold_left (save_miss_at m local fs fs' alg infos) missed db).
 
+  (* The same for the single-file route when the CALLER supplied the stat information (hash_file(..., info=i),
+     index.build.build_entry, odb.check): the file is rewritten to [fnew] after it was read and before
+     state.save; hash_file passes the caller's info on to state.save (AtWalk = the supplied info), a re-stat
+     at save time (AtSave) would see [fnew].  (Without caller-supplied info state.save has to stat the file
+     itself, after the read: that window exists in the implementation and is outside the property's routes.) *)
+  Definition hash_file_during (m : savetok) (db : statedb) (local : bool) (fs : fsview) (p : path) (alg : name)
+             (i : token) (fnew : file) : option oid * statedb :=
+    match use_hit alg (st_get db local fs p (Some i)) with
+    | Some v => (Some v, db)
+    | None =>
+        match lookup p fs with
+        | None => (None, db)
+        | Some f =>
+            let v := H alg (f_bytes f) in
+            (Some v, st_save db local p (alg, v) (match m with AtWalk => i | AtSave => f_tok fnew end))
+        end
+    end.
+
   (* ---------------------------------------------------------------- index level *)
   (* Meta: the attrs that take part in ==  (remote, is_link, destination, nlink are eq=False) *)
   Record meta := { m_isdir : bool; m_size : option N; m_nfiles : option N; m_isexec : bool;
@@ -440,6 +458,9 @@ Section WithDigest.
   | QGetHashesW (local : bool) (ps : list path) (alg : name) (infos : list (path * token))
                 (wp : path) (b : bytes) (t : token)
   (* index level: two index variables *)
+  (* hash_file with caller-supplied info [i] and a write of the same file DURING the query (after the read,
+     before state.save) *)
+  | QHashFileW (local : bool) (p : path) (alg : name) (i : token) (b : bytes) (t : token)
   | IBuild (s : slot)                              (* s = index.build(root, localfs) *)
   | IMd5 (s : slot) (alg : name)                   (* s = index.md5(s, state, name=alg) *)
   | IUpdate (s : slot).                            (* index.update(new = s, old = the other one) *)
@@ -452,6 +473,7 @@ Section WithDigest.
   | OHash (local : bool) (p : path) (alg : name) (v : option oid)
   | OHashes (local : bool) (alg : name) (l : list (path * oid))
   | OHashesDuring (local : bool) (alg : name) (l : list (path * oid)) (wp : path)   (* [wp] was rewritten meanwhile *)
+  | OHashDuring (local : bool) (p : path) (alg : name) (v : option oid)   (* [p] was rewritten meanwhile *)
   | OMd5 (alg : name) (i : index)
   | OIndex (i : index).
 
@@ -507,6 +529,10 @@ Section WithDigest.
         let r := get_hashes_during AtWalk (w_db w) local (the_fs w local) ps alg infos wp fnew in
         (with_fs (with_db w (snd r)) (set wp fnew (w_fs w)),
          match fst r with inl k => OErr k | inr l => OHashesDuring local alg l wp end)
+    | QHashFileW local p alg i b t =>
+        let fnew := {| f_tok := t; f_bytes := b |} in
+        let r := hash_file_during AtWalk (w_db w) local (the_fs w local) p alg i fnew in
+        (with_fs (with_db w (snd r)) (set p fnew (w_fs w)), OHashDuring local p alg (fst r))
     | IBuild s => let i := idx_build (w_fs w) in (with_slot w s i, OIndex i)
     | IMd5 s alg =>
         let r := idx_md5 (w_db w) (w_fs w) (get_slot w s) alg in
@@ -571,6 +597,9 @@ Section WithDigest.
            rows the query records (they carry the walk-time tokens) *)
         (negb local || infos_current_b (w_fs w) infos) &&
         fresh_b (with_db w (snd (get_hashes (w_db w) local (the_fs w local) ps alg infos))) wp t
+    | QHashFileW local p alg i _ t =>
+        (negb local || info_current_b (w_fs w) p (Some i)) &&
+        fresh_b (with_db w (snd (hash_file (w_db w) local (the_fs w local) p alg (Some i)))) p t
     | IBuild _ | IMd5 _ _ | IUpdate _ => true
     end.
 
@@ -613,6 +642,7 @@ Section WithDigest.
     | OHash _ _ _ v => VL [VN 3; enc_option VB v]
     | OHashes _ _ l => VL [VN 4; VL (map (fun pv => VB (snd pv)) l)]
     | OHashesDuring _ _ l _ => VL [VN 4; VL (map (fun pv => VB (snd pv)) l)]
+    | OHashDuring _ _ _ v => VL [VN 3; enc_option VB v]
     | OMd5 _ i => VL [VN 5; enc_index i]
     | OIndex i => VL [VN 5; enc_index i]
     end.
